@@ -56,6 +56,95 @@ def module():
     return importlib.import_module('c12_blocks')
 
 
+def correspondence_dag(ctx, n):
+    """model.remap(d) on generated polynomial DAGs (a random subset of the names moved to fresh names, once or in two steps): steady state, nonlinear impulse and Jacobian elements
+    of the remapped model vs the executable model of the RENAMED program (Model/Rename.v rename_prog through run_dag), and vs the original model's results with the names substituted"""
+    from sequence_jacobian import combine
+    from lib import nlmodels as NL
+    rng = ctx['rng']
+    specs = [NL.gen_nl_model(rng) for _ in range(n)]
+    mod = NL.write_module(f'c12_{ctx["seed"]}_{ctx["tier"]}', specs)
+    exprs, meta, dis = [], [], []
+    for mi, spec in enumerate(specs):
+        objs = [getattr(mod, f'm{mi}_{b["name"]}') for b in spec['blocks']]
+        model = combine(objs, name=f'ren{mi}')
+        N, T = spec['N'], spec['T']
+        names = list(range(N))
+        moved = rng.sample(names, rng.randint(1, min(4, N)))
+        pi = {x: x for x in names}
+        fresh = N
+        for x in moved:
+            pi[x] = fresh
+            fresh += 1
+        Np = fresh
+        d1 = {f'x{x}': f'x{pi[x]}' for x in moved}
+        try:
+            if rng.random() < 0.5 and len(moved) >= 2:      # two steps: first to intermediate names, then on to the final ones
+                mid = {f'x{x}': f'tmp{x}' for x in moved[:1]}
+                rm = model.remap({**{k: v for k, v in d1.items() if k not in mid}, **mid}).remap({f'tmp{x}': f'x{pi[x]}' for x in moved[:1]})
+            else:
+                rm = model.remap(d1)
+            calib = {f'x{k}': v for k, v in spec['calib'].items()}
+            calib_r = {f'x{pi[k]}': v for k, v in spec['calib'].items()}
+            devs = {f'x{z}': np.array(p) for z, p in spec['shocks'].items()}
+            devs_r = {f'x{pi[z]}': np.array(p) for z, p in spec['shocks'].items()}
+            ss, ss_r = model.steady_state(calib), rm.steady_state(calib_r)
+            td, td_r = model.impulse_nonlinear(ss, devs), rm.impulse_nonlinear(ss_r, devs_r)
+            ins = [f'x{v}' for v in spec['Z'] + spec['U']]
+            J, J_r = model.jacobian(ss, ins, T=T), rm.jacobian(ss_r, [f'x{pi[int(i[1:])]}' for i in ins], T=T)
+        except Exception as ex:
+            dis.append(dict(what=f'remapped polynomial DAG raised {type(ex).__name__}: {ex}', case=dict(spec=spec, moved=moved)))
+            continue
+        bad = []
+        ren = lambda k: f'x{pi[int(k[1:])]}'
+        if set(rm.inputs) != {ren(k) for k in model.inputs} or set(rm.outputs) != {ren(k) for k in model.outputs} or set(model.inputs) != {f'x{v}' for v in spec['Z'] + spec['U'] + spec['Pm']}:
+            bad.append('interface')
+        for k in ss.toplevel:
+            if ren(k) not in ss_r.toplevel or ss_r[ren(k)] != ss[k]:
+                bad.append(f'steady state of {k}')
+        for k in td.toplevel:
+            if ren(k) not in td_r.toplevel or not np.array_equal(td_r[ren(k)], td[k]):
+                bad.append(f'nonlinear path of {k}')
+        for o in J.outputs:
+            for i in J.nesteddict.get(o, {}):
+                e, er = J[o][i], J_r.nesteddict.get(ren(o), {}).get(ren(i))
+                if er is None or dict(e.elements) != dict(er.elements):
+                    bad.append(f'jacobian {o},{i}')
+        if any(ren(o) not in [ren(q) for q in J.outputs] for o in J.outputs) or len(J_r.outputs) != len(J.outputs):
+            bad.append('jacobian outputs')
+        if bad:
+            dis.append(dict(what='a remapped model does not return the original results with the names substituted', case=dict(spec=spec, moved=moved, differing=bad[:6])))
+        # the executable model of the RENAMED program
+        order = [b.name.split('_', 1)[1] for b in model.blocks]
+        bmap = {b['name']: b for b in spec['blocks']}
+        rexpr = lambda e: ('var', pi[e[1]]) if e[0] == 'var' else tuple(rexpr(x) if isinstance(x, tuple) else x for x in e)
+        rprog = [dict(ins=[pi[i] for i in bmap[nm]['ins']], outs=[(pi[o], rexpr(e)) for o, e in bmap[nm]['outs']]) for nm in order]
+        outs = sorted(int(k[1:]) for k in td_r.toplevel if k not in devs_r)
+        table = NL.C.coq_list([calib_r.get(f'x{i}', 0.0) for i in range(Np)], NL.qf)
+        exprs.append(f'run_dag {Np} {T}%Z {table} {NL.coq_prog(rprog)} {NL.coq_devs([(int(k[1:]), v) for k, v in devs_r.items()])} {NL.C.coq_list(outs, str)}')
+        meta.append((dict(spec=spec, moved=moved), ss_r, td_r, outs, Np))
+    vals, logs = C.eval_in_coq('C12', NL.HEADER, exprs, chunk=max(1, len(exprs) // 16 + 1), tag='ren')
+    for (case, ss_r, td_r, outs, Np), vm in zip(meta, vals):
+        if vm is None:
+            continue
+        wf, ssm, devm = vm if len(vm) == 3 else (vm[0][0], vm[0][1], vm[1])
+        bad = []
+        if wf is not True:
+            bad.append('the renamed evaluation order fails the well-formedness test of the model')
+        for i in range(Np):
+            if f'x{i}' in ss_r.toplevel and abs(ss_r[f'x{i}'] - float(NL.frac(ssm[i]))) > 1e-12 * max(1.0, abs(float(NL.frac(ssm[i])))):
+                bad.append(f'steady state of x{i}')
+        for o, pm in zip(outs, devm):
+            pmf = np.array([float(NL.frac(x)) for x in pm])
+            if len(pmf) != len(td_r[f'x{o}']) or np.abs(pmf - td_r[f'x{o}']).max() > 1e-11 * max(1.0, np.abs(pmf).max()):
+                bad.append(f'nonlinear path of x{o}')
+        if bad:
+            dis.append(dict(what='a remapped model differs from the executable model of the renamed program', case=dict(case, differing=bad[:6])))
+    for l in logs:
+        dis.append(dict(what='coq evaluation failed', log=l))
+    return meta, exprs, dis
+
+
 def correspondence(ctx):
     # the model of this property has no executable part beyond the translated order flags (checked as an obligation);
     # interface algebra under renaming histories is compared with an independent substitution here
@@ -85,8 +174,12 @@ def correspondence(ctx):
             if list(cur.inputs) != ins or list(cur.outputs) != outs or list(b.inputs) != list(blocks[name].inputs):
                 dis.append(dict(what='interface after a renaming history', case=dict(block=name, history=hist),
                                 impl=dict(inputs=list(cur.inputs), outputs=list(cur.outputs)), model=dict(inputs=ins, outputs=outs)))
-    return dict(evaluations=cases, distinct_nontrivial=len(distinct),
-                rule='random renaming histories (1-4 remaps onto fresh names incl. renaming already renamed names, 25% swaps of two inputs) on simple, '
+    metaD, exprsD, disD = correspondence_dag(ctx, 20 if ctx['tier'] == 'quick' else 200)
+    dis += disD
+    return dict(evaluations=cases + len(exprsD), distinct_nontrivial=len(distinct) + len({C.canon(m[0]) for m in metaD}),
+                rule='generated polynomial DAGs remapped as a whole (1-4 names moved to fresh names, half of them in two steps): interface, steady state, nonlinear impulse (bit-equal) and Jacobian elements equal the '
+                     'original results with the names substituted, and steady state / nonlinear impulse equal the executable model of the RENAMED program (Model/Rename.v); '
+                     'random renaming histories (1-4 remaps onto fresh names incl. renaming already renamed names, 25% swaps of two inputs) on simple, '
                      'combined and solved blocks: inputs/outputs must be the substituted lists and the original block unchanged',
                 samples=[dict(block='simple', history=[{'a': 'a_07'}, {'a_07': 'a_13'}])], disagreements=dis, stats=dict(block_types=len(blocks)))
 
